@@ -724,6 +724,7 @@ func (h *harness) shrink(c Case, f failure, key string) (Case, failure) {
 		}
 		muts := []func(d *Case) bool{
 			func(d *Case) bool { ok := d.Async != "sync"; d.Async = "sync"; return ok },
+			func(d *Case) bool { ok := d.Async == "mixed"; d.Async = "promise"; return ok },
 			func(d *Case) bool { ok := d.Empty != "" && d.Empty != "empty"; d.Empty = "empty"; return ok },
 			func(d *Case) bool { ok := d.Tie == "seeded"; d.Tie = "reverse-id"; return ok },
 			func(d *Case) bool { ok := d.Tie != "id"; d.Tie = "id"; return ok },
